@@ -177,10 +177,16 @@ def exec_producer_path(case):
             rs.shuffle(parts)
         if case.get("n_before"):
             # an earlier refresh saw the topic with another partition count (grown since, or deleted and re-created)
-            nb = case["n_before"]
+            nb = case["n_before"] if case["n_before"] > 0 else n      # -1: same count, only the leaders change
             producer._metadata.update_metadata(MetadataResponse_v0(
                 [(i, "127.0.0.1", 9092 + i) for i in nodes], [(0, "t", [(0, q, nodes[q % len(nodes)], [0], [0]) for q in range(nb)])]))
             out.label("partition_count_changed_" + ("down" if nb > n else "up" if nb < n else "same"))
+            # ... and the producer was already used with that view (anything derived from it is stale now)
+            try:
+                producer._partition("t", None, None, b"v", None, b"v")
+                producer._partition("t", None, b"k", b"v", b"k", b"v")
+            except Exception as e:
+                out.fail("unkeyed_available", "producer_path_raises", {"n": nb, "unavailable": [], "error": repr(e)})
         producer._metadata.update_metadata(MetadataResponse_v0([(i, "127.0.0.1", 9092 + i) for i in nodes], [(0, "t", parts)]))
         got_parts = producer._metadata.partitions_for_topic("t")
         if got_parts is None or set(got_parts) != set(range(n)):
@@ -269,7 +275,7 @@ def _strat_producer_path():
         "rng_seed": st.integers(0, 2 ** 32),
         "explicit": st.one_of(st.none(), st.integers(0, 500)),
         "ser": st.sampled_from([None, "prefix", "utf8"]),
-        "n_before": st.one_of(st.none(), st.none(), st.integers(1, 12), st.integers(1, 200)),
+        "n_before": st.one_of(st.none(), st.none(), st.integers(1, 12), st.integers(1, 200), st.just(-1)),
     })
 
 
